@@ -461,9 +461,9 @@ def _multicast_state_clause(w, drv, stats, out):
             evs.append((e["t_call"], idx, "unreg", e["args"]))
     for i, op, entry in drv.op_log:
         if op["op"] == "update" and op.get("mutate"):
-            # a ServiceInfo changed in place: the library cannot know the old records any more (documented assumption)
-            mutated.add(op["svc"]["name"].lower())
-            mutated.add(SvcRecords(op["svc"]).server.lower())
+            # a ServiceInfo changed in place and handed to update again: the replaced records cannot be rebuilt from the
+            # object, but whatever is queued under the service's names is stale all the same (third audit, D53)
+            stats["inplace_updates"] = stats.get("inplace_updates", 0) + 1
     evs.sort(key=lambda x: (x[0], x[1]))
     # a record that several services share (the address of a common host name) with different TTLs has no single
     # configured TTL: the TTL clause leaves it alone
@@ -473,7 +473,9 @@ def _multicast_state_clause(w, drv, stats, out):
             sv0 = SvcRecords(arg)
             for r0 in sv0.all():
                 ttl_by_owner.setdefault(r0.ident(), {}).setdefault(sv0.name.lower(), set()).add(r0.ttl)
-    mixed = {i for i, owners in ttl_by_owner.items() if len(owners) > 1 and len(set().union(*owners.values())) > 1}
+    # (no exemption for records that several services share: the TTLs configured by the services registered at the
+    # instant of the transmission are what counts, see own_ttl below)
+    mixed = set()
     times = [x[0] for x in evs]
     reg = ModelRegistry()
     k = 0
